@@ -21,6 +21,9 @@ import (
 	"bytes"
 	"fmt"
 	"io"
+	"net"
+	"os"
+	"syscall"
 	"testing"
 
 	oe "github.com/ossrs/go-oryx-lib/errors"
@@ -30,12 +33,27 @@ type vC08PtrErr struct{ s string }
 
 func (e *vC08PtrErr) Error() string { return e.s }
 
+// a transport error that is itself a wrapper (Unwrap, no Cause): it is the root cause
+type vC08Unwrap struct {
+	s     string
+	inner error
+}
+
+func (e *vC08Unwrap) Error() string { return e.s }
+func (e *vC08Unwrap) Unwrap() error { return e.inner }
+
+// ids as in coq/Lib/Err.v: 0..3 the io sentinels, 4 a custom error, 5..9 wrapper-typed errors
 var vC08Sentinels = []error{
 	io.EOF,
 	io.ErrUnexpectedEOF,
 	io.ErrClosedPipe,
 	io.ErrShortWrite,
 	&vC08PtrErr{"injected transport failure"},
+	&net.OpError{Op: "read", Net: "tcp", Err: syscall.ECONNRESET},
+	&os.PathError{Op: "write", Path: "/dev/full", Err: syscall.ENOSPC},
+	&vC08Unwrap{"custom wrapper of io.EOF", io.EOF},
+	fmt.Errorf("tls: %w", io.ErrUnexpectedEOF),
+	&vC08Unwrap{"custom wrapper of nil", nil},
 }
 
 func vC08CauseID(err error) int {
@@ -43,6 +61,9 @@ func vC08CauseID(err error) int {
 		return -1
 	}
 	c := oe.Cause(err)
+	if c == nil {
+		return -3 // a non-nil error without a cause
+	}
 	for i, s := range vC08Sentinels {
 		if c == s {
 			return i
@@ -631,7 +652,7 @@ func vC08Thin(k *vKit, set []vSx, lim int) []vSx {
 	return keep
 }
 
-func vC08TermRead(r *vRng) int { return r.pickInt(0, 0, 0, 1, 2, 4) }
+func vC08TermRead(r *vRng) int { return r.pickInt(0, 0, 0, 1, 2, 4, 5, 6, 7, 8, 9) }
 
 func TestVerifC08Flv(t *testing.T) {
 	k := vNewKit(t, "C08")
@@ -721,7 +742,7 @@ func TestVerifC08Flv(t *testing.T) {
 		}
 		set = vC08Thin(k, set, vC08Budget(k, wl, 1)/4)
 		k.hist["flv"]["read-call-indices"] += len(set) - 1
-		for _, term := range []int{1, 2, 4} {
+		for _, term := range []int{1, 2, 4, k.rnd.pickInt(5, 6, 7, 8, 9)} {
 			runOne(vL(vZ(2), vZ(0), vI(hv), vI(ha), vLs(tags), vI(term), vI(k.rnd.intn(2)), segs, vLs(set)), false)
 		}
 	}
@@ -729,7 +750,7 @@ func TestVerifC08Flv(t *testing.T) {
 	nW := k.N(60, 1500)
 	for i := 0; i < nW; i++ {
 		hv, ha, tags, wl, nc := vC08GenTags(k.rnd, i%3 != 0)
-		term := k.rnd.pickInt(0, 1, 2, 4, 4)
+		term := k.rnd.pickInt(0, 1, 2, 4, 4, 5, 6, 7, 8, 9)
 		m := k.rnd.pickInt(0, 0, 1, 3, 10, 12, 1<<30)
 		is := vL(vZ(0), vZ(0), vI(nc))
 		if lim := vC08Budget(k, wl, 1); nc+1 > lim {
